@@ -148,6 +148,25 @@ func (x *Exec) inline(st *State, fr *Frame, callee *ssa.Function, args []*Value,
 		}
 	}
 	nf.Block = callee.Blocks[0]
+	// call-site assertions of the caller's contract about the call to an inlined helper itself
+	if x.fc != nil && fr.Fn == x.fn && len(st.frames) == 1 && len(x.fc.Asserts) > 0 {
+		short := shortCallee(x.P.FuncName(callee))
+		ord := x.siteOrdinal(fr.Fn, pos, short)
+		for _, a := range x.fc.Asserts {
+			if a.At == fmt.Sprintf("%s#%d", short, ord) {
+				cenv := x.envFor(st, x.entry, fr)
+				cenv.prev = x.innermostHead(st, st.frames[0])
+				for k, v := range st.snaps {
+					cenv.vars["$"+k] = v
+				}
+				for k, v := range nf.Params {
+					cenv.vars["$"+k] = v
+				}
+				x.fired[a] = true
+				x.oblige(st, "assert@"+short+fmt.Sprintf("#%d", ord), a.Label, a.Props, x.evalBool(cenv, a.Expr), x.P.Pos(instrPos(pos)), a.Src)
+			}
+		}
+	}
 	st.frames = append(st.frames, nf)
 }
 
@@ -299,7 +318,29 @@ func (x *Exec) callByContract(st *State, fr *Frame, callee *ssa.Function, fc *Fu
 				for k, v := range env.vars {
 					cenv.vars["$"+k] = v
 				}
+				x.fired[a] = true
 				x.oblige(st, "assert@"+short+fmt.Sprintf("#%d", ord), a.Label, a.Props, x.evalBool(cenv, a.Expr), where, a.Src)
+			}
+		}
+	}
+	// A call site `callee#n` that has moved, as a whole, into a contract-less helper (the function
+	// itself no longer calls the callee, and has no loop): the n-th call along the path stands for it.
+	if x.fc != nil && len(x.fc.Asserts) > 0 && len(st.frames) >= 1 && st.frames[0].Fn == x.fn {
+		st.callNo["dyn:"+short]++
+		if fr.Fn != x.fn && !hasStaticSite(x.fn, short) && !hasLoop(x.fn) {
+			dyn := st.callNo["dyn:"+short]
+			for _, a := range x.fc.Asserts {
+				if a.At == fmt.Sprintf("%s#%d", short, dyn) {
+					cenv := x.envFor(st, x.entry, st.frames[0])
+					for k, v := range st.snaps {
+						cenv.vars["$"+k] = v
+					}
+					for k, v := range env.vars {
+						cenv.vars["$"+k] = v
+					}
+					x.fired[a] = true
+					x.oblige(st, "assert@"+short+fmt.Sprintf("#%d", dyn), a.Label, a.Props, x.evalBool(cenv, a.Expr), where, a.Src)
+				}
 			}
 		}
 	}
@@ -320,6 +361,7 @@ func (x *Exec) callByContract(st *State, fr *Frame, callee *ssa.Function, fc *Fu
 				for k, v := range env.vars {
 					cenv.vars["$"+k] = v
 				}
+				x.fired[a] = true
 				x.oblige(st, "assert@"+via+"."+short+fmt.Sprintf("#%d", ord), a.Label, a.Props, x.evalBool(cenv, a.Expr), where, a.Src)
 			}
 		}
@@ -355,6 +397,9 @@ func (x *Exec) callByContract(st *State, fr *Frame, callee *ssa.Function, fc *Fu
 	// (the same order as at the callee's own return)
 	x.applyGhost(st, post, fc)
 	for _, e := range fc.Ensures {
+		if snapshotRefs(fc, e) > 0 {
+			continue // speaks about a snapshot inside the callee: not usable at a call site
+		}
 		st.assume(x.evalBool(post, e.Expr))
 	}
 	for _, bi := range invs {
@@ -440,6 +485,30 @@ func (x *Exec) siteOrdinal(fn *ssa.Function, pos ssa.Instruction, short string) 
 		siteCache[fn] = m
 	}
 	return m[pos]
+}
+
+func hasStaticSite(fn *ssa.Function, short string) bool {
+	for _, b := range fn.Blocks {
+		for _, ins := range b.Instrs {
+			if c, ok := ins.(ssa.CallInstruction); ok && calleeShortName(c.Common()) == short {
+				return true
+			}
+		}
+	}
+	return false
+}
+
+func hasLoop(fn *ssa.Function) bool {
+	seen := map[*ssa.BasicBlock]bool{}
+	for _, b := range fn.Blocks {
+		seen[b] = true
+		for _, s := range b.Succs {
+			if seen[s] && s.Index <= b.Index {
+				return true
+			}
+		}
+	}
+	return false
 }
 
 func calleeShortName(cc *ssa.CallCommon) string {
@@ -834,6 +903,7 @@ func (x *Exec) callBySlot(st *State, fr *Frame, sc *FuncContract, slot string, s
 				for k, v := range env.vars {
 					cenv.vars["$"+k] = v
 				}
+				x.fired[a] = true
 				x.oblige(st, "assert@slot:"+slot, a.Label, a.Props, x.evalBool(cenv, a.Expr), where, a.Src)
 			}
 		}
